@@ -29,9 +29,9 @@ theorem addrIntOf_append {ra rb : List Stmt} {j n : Nat} (h : addrIntOf ra j = s
   | none => rw [hx] at h; cases h
   | some x => rw [addrOf_append hx]; rw [hx] at h; exact h
 
-theorem addrOther_append {ra rb : List Stmt} {v : Value} {n : Int} (h : addrOther ra v = .ok n) :
-    addrOther (ra ++ rb) v = .ok n := by
-  unfold addrOther at h ⊢
+theorem addrOperand_append {ra rb : List Stmt} {v : Value} {n : Int} (h : addrOperand ra v = .ok n) :
+    addrOperand (ra ++ rb) v = .ok n := by
+  unfold addrOperand at h ⊢
   by_cases hA : v.isAddress = true
   · rw [if_pos hA] at h ⊢
     cases hi : v.int? with
@@ -48,25 +48,8 @@ theorem addrOffset_append {ra rb : List Stmt} {v x : Value} (h : addrOffset ra v
     addrOffset (ra ++ rb) v = .ok x := by
   cases v with
   | expr l r op m ae =>
-    rw [addrOffset_expr] at h ⊢
-    cases hq : addrOther ra (if l.isAddress = true then r else l) with
-    | ok add =>
-      rw [addrOther_append hq]; rw [hq] at h
-      cases hp : (if l.isAddress = true then l.int? else r.int?) with
-      | none => rw [hp] at h; cases h
-      | some ai =>
-        rw [hp] at h
-        dsimp only at h ⊢
-        cases hA : addrIntOf ra ai with
-        | none => rw [hA] at h; cases h
-        | some a => rw [addrIntOf_append hA]; rw [hA] at h; exact h
-    | diag => rw [hq] at h; cases h
-    | internal =>
-      rw [hq] at h
-      cases hp : (if l.isAddress = true then l.int? else r.int?) <;> rw [hp] at h <;> cases h
-    | diverged =>
-      rw [hq] at h
-      cases hp : (if l.isAddress = true then l.int? else r.int?) <;> rw [hp] at h <;> cases h
+    obtain ⟨a, b, h1, h2, h3⟩ := addrOffset_ok.1 h
+    exact addrOffset_ok.2 ⟨a, b, addrOperand_append h1, addrOperand_append h2, h3⟩
   | _ => cases h
 
 theorem sumSizes_append {ra rb : List Stmt} {lo hi : Nat} (h : hi ≤ ra.length) :
@@ -129,8 +112,18 @@ def fixRelTarget (ss : List Stmt) (s2 : Stmt) : Outcome Nat :=
              | some t => (match addrIntOf ss t with | some a => .ok a | none => .internal)
              | none => .internal)
 
+/-- (batch B3) a label as constant offset of a pointer register: the target address is the offset -/
+def fixPartAbs (ss : List Stmt) (s2 : Stmt) : Outcome Stmt :=
+  match fixRelTarget ss s2 with
+  | .ok r => (match numericOfInt r (some 4) .none with
+              | .ok v => .ok { s2 with pkg := { s2.pkg with additional := v } }
+              | .error _ => .internal)
+  | .diag => .diag
+  | _ => .internal
+
 def fixPart3 (ss : List Stmt) (i : Nat) (s2 : Stmt) : Outcome Stmt :=
   if s2.pkg.needsRes then
+    if s2.pkg.choices.isEmpty then fixPartAbs ss s2 else
     match fixRelTarget ss s2, addrIntOf ss i with
     | .ok r, some start =>
       let jump : Int := (r : Int) - start - s2.pkg.size
@@ -227,6 +220,13 @@ theorem fixPart3_append {ra rb : List Stmt} {i : Nat} {s2 x : Stmt} (h : fixPart
   split at h
   · rename_i hc
     rw [if_pos hc]
+    by_cases he : s2.pkg.choices.isEmpty = true
+    · rw [if_pos he] at h ⊢
+      unfold fixPartAbs at h ⊢
+      cases hr : fixRelTarget ra s2 with
+      | ok r => rw [hr] at h; rw [fixRelTarget_append hr]; exact h
+      | _ => rw [hr] at h; cases h
+    rw [if_neg he] at h ⊢
     cases hr : fixRelTarget ra s2 with
     | ok r =>
       rw [hr] at h
